@@ -204,6 +204,8 @@ def main():
     vh = os.path.join(work, "vh")
     hb = meta.get("harness")
     if hb:
+        if os.path.exists(vh):
+            os.remove(vh)   # never fall back to a binary of an earlier tree
         with Lock(".go.lock"):
             env = dict(GOENV)
             if meta.get("cgo"): env["CGO_ENABLED"] = "1"
